@@ -195,4 +195,48 @@ def concClauseA [DecidableEq S] (o : ConcObsA S) : String :=
 def judgeConcA [DecidableEq S] (o : ConcObsA S) : Option String :=
   if ConcOkA o then none else some (concClauseA o)
 
+/-! ## the transport: "the update and error-update messages it RECEIVED"
+
+The statement is about what arrives at the peer.  A connection over a real transport may be lost; the node may give it up
+(a peer that does not read).  What the statement then asks: as long as the node treats the connection as activated — it is
+known to the dispatcher and its socket is open — what the peer received reconstructs the cache; a connection the node gives
+up is closed AND forgotten (the client notices, reconnects and gets a fresh snapshot).  Observed at quiescent points (the
+handler thread of the connection has had a look at its flags). -/
+
+/-- one observation point of one connection on one parameter -/
+structure TObs (S : Type) where
+  obs : Obs S            -- messages decoded from the bytes the peer received since the last point; the cache
+  garbled : Nat          -- lines the peer received that are not a message
+  isOpen : Bool          -- the node has not closed the socket
+  listed : Bool          -- the dispatcher knows the connection (list of connections, activated set or a subscription)
+  deriving Repr
+
+/-- a connection in service: open and known to the dispatcher -/
+def TObs.served (o : TObs S) : Bool := o.isOpen && o.listed
+
+/-- every point at which the connection is in service satisfies the statement; the first point at which it is not
+finds it closed and forgotten, and nothing is asked afterwards -/
+def TraceOkT [DecidableEq S] (isErr : S → Bool) : Option S → S → List (TObs S) → Prop
+  | _, _, [] => True
+  | k, prev, o :: rest =>
+    if o.served then o.garbled = 0 ∧ OpOkO isErr k prev o.obs ∧ TraceOkT isErr (replayO k o.obs.msgs) o.obs.cache rest
+    else o.isOpen = false ∧ o.listed = false
+
+def clauseT [DecidableEq S] (isErr : S → Bool) (k : Option S) (prev : S) (o : TObs S) : String :=
+  if o.served then (if o.garbled ≠ 0 then "garbled-message" else clauseO isErr k prev o.obs)
+  else if o.isOpen then "forgotten-but-open" else "closed-but-still-listed"
+
+def judgeFromT [DecidableEq S] (isErr : S → Bool) : Nat → Option S → S → List (TObs S) → Option (Nat × String)
+  | _, _, _, [] => none
+  | i, k, prev, o :: rest =>
+    if o.served then
+      if o.garbled = 0 ∧ OpOkO isErr k prev o.obs then judgeFromT isErr (i + 1) (replayO k o.obs.msgs) o.obs.cache rest
+      else some (i, clauseT isErr k prev o)
+    else if o.isOpen = false ∧ o.listed = false then none
+    else some (i, clauseT isErr k prev o)
+
+/-- monitor for the stream of a connection over a real transport, from its activation on -/
+def judgeT [DecidableEq S] (isErr : S → Bool) (prev : S) (tr : List (TObs S)) : Option (Nat × String) :=
+  judgeFromT isErr 0 none prev tr
+
 end Frappy.Spec.C05
